@@ -13,7 +13,7 @@ export GOFLAGS=-mod=mod GOPROXY=off GOSUMDB=off GOTOOLCHAIN=local
 wt=/tmp/seedeval-$id
 git -C /repo worktree remove --force "$wt" 2>/dev/null
 git -C /repo worktree add -q --detach "$wt" HEAD || exit 3
-cleanup() { git -C /repo worktree remove --force "$wt" 2>/dev/null; git -C /repo checkout -- . 2>/dev/null; }
+cleanup() { git -C /repo worktree remove --force "$wt" 2>/dev/null; }
 trap cleanup EXIT
 res() { echo "  $1"; }
 cp "$src/demo_test.go" "$wt/zz_seed_demo_test.go"
